@@ -391,6 +391,8 @@ pub struct Hist {
     /// names of local spans / events and keys of properties issued where nothing records (no
     /// scope, a scope of an unsampled span, a full scope): they must not be delivered anywhere
     pub dark_names: Vec<String>,
+    /// (filler root, number of events attached to its child, time) per backlog operation
+    pub bulk_atts: Vec<(usize, usize, T)>,
     /// empty report() calls of idle cycles (not recorded as batches)
     pub idle_reports: u64,
     pub executed_ops: u32,
